@@ -18,6 +18,10 @@ def register(COMPONENTS, g):
         return comp_generic("runcache", tier, seed, NPROC, [], "runcache", 1200 if tier == "quick" else 3300)
     COMPONENTS["runcache"] = comp_runcache
 
+    def comp_find(tier, seed):
+        return comp_generic("find", tier, seed, NPROC, [], "find", 900 if tier == "quick" else 3000)
+    COMPONENTS["find"] = comp_find
+
 
 def register_props(PROPS, g):
     hash_rule = ("real files under a private root: all permutations of small base lists (with duplicates and directories), "
@@ -46,6 +50,13 @@ def register_props(PROPS, g):
                          ("C10", ["C10", "C01"], "histories with at least two run operations")):
         PROPS[pid] = {"components": ["runcache"], "oracle": orc, "decode": None, "nontrivial": ("distinct_nontrivial", nt),
                       "rule": rc_rule, "assumptions": rc_assume, "trusted_extra": rc_tb}
+    PROPS["C17"] = {"components": ["find"], "oracle": ["C17"], "decode": None,
+                    "nontrivial": ("distinct_nontrivial", "cases on chains of depth >= 2"),
+                    "rule": "real directory chains: every chain up to depth 3 (quick) / 4 (thorough) with 6 possible contents per level x every start level x "
+                            "stop in {every level, existing unrelated dir, missing unrelated dir}; file.Find under a 3 s watchdog",
+                    "assumptions": ["paths are absolute and cleaned (Find cleans them); a directory listing is a list of (name, is-directory) pairs",
+                                    "symbolic links and permissions are outside the model"],
+                    "trusted_extra": ["os.ReadDir is abstracted as a partial map from directory paths to entry lists"]}
     PROPS["C03"] = {"components": ["graph"], "oracle": ["C03"], "decode": None,
                     "nontrivial": ("distinct_nontrivial", "cases whose selected task set (closure of the request) has at least two tasks"),
                     "rule": "spokfiles generated from dependency graphs, parsed, loaded with file.New and run with SpokFile.Run and a recording runner; "
